@@ -246,6 +246,10 @@ def plan_pure(S, prop, tier, avoid):
             # numbers): what it leaves behind must not disturb the sorts that follow
             ops.append({"k": which + "_bad", "n": n, "seed": r.randrange(1 << 30), "keymode": pick(r, ["ties", "ties2", "random"]),
                         "bad": pick(r, ["dictpayload", "str"]), "pos": r.randrange(0, n), "container": "list", "dt": "i8"})
+            if chance(r, 0.6):
+                # ... and the next thing sorted is SHORTER than what failed
+                ops.append({"k": which, "n": r.randrange(0, min(4, n)), "seed": r.randrange(1 << 30), "keymode": "random",
+                            "container": pick(r, ["array", "list"]), "dt": "i8"})
         if which == "splitarray":
             op["nper"] = wpick(r, [(1, 1), (r.randrange(1, 12), 4), (n + 1, 1), (max(1, n), 1), (r.randrange(1, 400), 1)])
         if which == "isplit":
